@@ -534,11 +534,32 @@ def _run_case_under_O(case):
     return [Violation(sig, "[interpreter run with -O] " + what) for sig, what in out]
 
 
+class CanarySerializer(object):
+    """an application's own serializer, added to Pyro's table of serializers (a documented extension point); constructing it is
+    recorded - a wire tag must never be able to name it"""
+    serializer_id = 77
+
+    def __init__(self):
+        Canary.created += 1
+
+
 def run_case(case):
     if case.get("python_O") and __debug__:
         return _run_case_under_O(case)
     if case.get("part") == "registry":
         return run_registry_case(case)
+    if case.get("app_serializer"):
+        # the process has an application serializer in Pyro's serializer tables while the payload is decoded
+        from Pyro5 import serializers as _s
+        plain = {k: v for k, v in case.items() if k != "app_serializer"}
+        inst = CanarySerializer()
+        _s.serializers["canary"] = inst
+        _s.serializers_by_id[77] = inst
+        try:
+            return run_case(plain)
+        finally:
+            _s.serializers.pop("canary", None)
+            _s.serializers_by_id.pop(77, None)
     from Pyro5 import serializers
     install_hook()
     V = []
@@ -866,6 +887,12 @@ def run(ctx):
     if ctx.shard.get("index", 0) == 0:
         for case in registry_cases():
             ctx.observe(case, run_case(case), True, ["registry", "ser:" + case["ser"]])
+    if ctx.shard.get("index", 0) == 2:
+        for ser in ("serpent", "json", "marshal", "msgpack"):
+            for tag in ("Pyro5.util.CanarySerializer", "Pyro5.util.canary", "Pyro5.serializers.CanarySerializer", "checks.c04_deser.CanarySerializer", "Pyro5.util.SerpentSerializer"):
+                for path in ("loads", "call-args"):
+                    case = {"ser": ser, "path": path, "tree": {"__class__": tag}, "app_serializer": True}
+                    ctx.observe(case, run_case(case), True, ["application-serializer-in-the-table", "ser:" + ser])
     for case in sweep_cases(ctx.shard.get("index", 0), ctx.shard.get("count", 1)):
         ctx.observe(case, run_case(case), True, _labels(case) + ["sweep"])
         n += 1
